@@ -9,6 +9,8 @@
 #include <stdlib.h>
 #include <string.h>
 
+#include "fiber_verif.h"
+
 hazard_pointer_thread_record_t* hazard_pointer_thread_record_create_and_push(
     _Atomic(hazard_pointer_thread_record_t*)* head,
     size_t pointers_per_thread) {
@@ -145,6 +147,7 @@ void hazard_pointer_scan(hazard_pointer_thread_record_t* hptr) {
   }
 
   qsort(hptr->plist, index, sizeof(*hptr->plist), &hazard_pointer_compare);
+  FIBER_VERIF_POINT(FV_HP_SCAN_SNAPSHOT, hptr, 0);
 
   hazard_node_t* node = hptr->retired_list;
   hptr->retired_list = NULL;
